@@ -1,49 +1,180 @@
-"""Observers of FixedString<L> (C10: safety + unchanged content; C11: result equals std::string's)."""
-from .fs import M, OBSERVERS, METHODS
+"""Observers of FixedString<L> (C10: safety + unchanged content; C11: result equals std::string's).
+
+C11 specs are finite expansions over positions 0..L / 0..K-1, written from the C++ standard's
+description of basic_string (see DESIGN.md appendix B), in terms of the ghost view
+(g_len, g0..) of the object and (str_n, str_0..) of the argument.
+"""
+from .fs import M, OBSERVERS, METHODS, MIN
 
 Z, C, S, B, SS, F, D = 'z', 'c', 's', 'b', 'S', 'F', 'd'
+NPOS = '18446744073709551615ul'
+
+
+def chain_first(conds, vals, default):
+    s = default
+    for c, v in reversed(list(zip(conds, vals))):
+        s = '((%s) ? (%s) : %s)' % (c, v, s)
+    return s
+
+
+def match_at(i, mlen, src, W):
+    return '(' + ' && '.join('(%d >= (%s) || OLD((%s)+%d) == SRC(%s,%d))' % (j, mlen, i, j, src, j) for j in range(W)) + ')'
+
+
+def inset(c, mlen, src, W):
+    return '(' + ' || '.join('(%d < (%s) && SRC(%s,%d) == (%s))' % (j, mlen, src, j, c) for j in range(W)) + ')'
+
+
+def sp_find(mlen, src, rev, width=None):
+    def f(L, K):
+        W = width(L, K) if width else K
+        if rev:
+            conds = ['%d <= pos && %d + (%s) <= g_len && %s' % (i, i, mlen, match_at(str(i), mlen, src, W)) for i in range(L, -1, -1)]
+            vals = [str(i) + 'ul' for i in range(L, -1, -1)]
+        else:
+            conds = ['%d >= pos && %d + (%s) <= g_len && %s' % (i, i, mlen, match_at(str(i), mlen, src, W)) for i in range(L + 1)]
+            vals = [str(i) + 'ul' for i in range(L + 1)]
+        return dict(dom='1', result=['R == ' + chain_first(conds, vals, NPOS)])
+    return f
+
+
+def sp_find_c(rev):
+    def f(L, K):
+        rng = range(L - 1, -1, -1) if rev else range(L)
+        conds = ['%d %s pos && %d < g_len && OLD(%d) == ch' % (i, '<=' if rev else '>=', i, i) for i in rng]
+        return dict(dom='1', result=['R == ' + chain_first(conds, ['%dul' % i for i in rng], NPOS)])
+    return f
+
+
+def sp_of(mlen, src, rev, neg, width=None, char=False):
+    def f(L, K):
+        W = width(L, K) if width else K
+        rng = range(L - 1, -1, -1) if rev else range(L)
+        def member(i):
+            e = ('(OLD(%d) == ch)' % i) if char else inset('OLD(%d)' % i, mlen, src, W)
+            return ('!' + e) if neg else e
+        conds = ['%d %s pos && %d < g_len && %s' % (i, '<=' if rev else '>=', i, member(i)) for i in rng]
+        return dict(dom='1', result=['R == ' + chain_first(conds, ['%dul' % i for i in rng], NPOS)])
+    return f
+
+
+def sp_cmp(p1, n1, p2, n2, src, dom='1'):
+    """sign of the lexicographic comparison OLD[p1, p1+n1) <=> SRC[p2, p2+n2) (unsigned char order)."""
+    def f(L, K):
+        T = min(L, K)
+        conds, vals = [], []
+        for t in range(T):
+            a, b = 'OLD((%s)+%d)' % (p1, t), 'SRC(%s,(%s)+%d)' % (src, p2, t)
+            conds.append('%d < N1 && %d < N2 && %s != %s' % (t, t, a, b))
+            vals.append('((unsigned char)%s < (unsigned char)%s ? -1 : 1)' % (a, b))
+        e = chain_first(conds, vals, '(N1 < N2 ? -1 : (N1 > N2 ? 1 : 0))')
+        return dict(dom=dom, result=['#define N1 (%s)\n#define N2 (%s)\n__CPROVER_ensures((R > 0) - (R < 0) == %s)\n#undef N1\n#undef N2\n//' % (n1, n2, e)])
+    return f
+
+
+def full(src):
+    return ('0', 'g_len', '0', src + '_n')
+
+
+def sub1(src):
+    return ('pos1', MIN('count1', 'g_len - pos1'), '0', src + '_n')
+
+
+def sp_bool(expr_fn):
+    def f(L, K):
+        return dict(dom='1', result=['(R != 0) == (%s)' % expr_fn(L, K)])
+    return f
+
+
+def e_starts(L, K):
+    return 'str_n <= g_len && ' + match_at('0', 'str_n', 'str', K)
+
+
+def e_ends(L, K):
+    return 'str_n <= g_len && ' + match_at('g_len - str_n', 'str_n', 'str', K)
+
+
+def e_contains(L, K):
+    return '(' + ' || '.join('(%d + str_n <= g_len && %s)' % (i, match_at(str(i), 'str_n', 'str', K)) for i in range(L + 1)) + ')'
+
+
+def e_contains_c(L, K):
+    return '(' + ' || '.join('(%d < g_len && OLD(%d) == ch)' % (i, i) for i in range(L)) + ')'
+
 
 OBS = [
-    M('compare_S', 'compare( str)', 'i', [(SS, 'str')], False),
-    M('compare_s', 'compare( str)', 'i', [(S, 'str')], False),
-    M('compare_pcS', 'compare( pos1, count1, str)', 'i', [(Z, 'pos1'), (Z, 'count1'), (SS, 'str')], False),
-    M('compare_pcs', 'compare( pos1, count1, str)', 'i', [(Z, 'pos1'), (Z, 'count1'), (S, 'str')], False),
+    M('compare_S', 'compare( str)', 'i', [(SS, 'str')], False, spec=sp_cmp(*full('str'), 'str')),
+    M('compare_s', 'compare( str)', 'i', [(S, 'str')], False, spec=sp_cmp(*full('str'), 'str')),
+    M('compare_pcS', 'compare( pos1, count1, str)', 'i', [(Z, 'pos1'), (Z, 'count1'), (SS, 'str')], False,
+      spec=sp_cmp(*sub1('str'), 'str', dom='pos1 <= g_len')),
+    M('compare_pcs', 'compare( pos1, count1, str)', 'i', [(Z, 'pos1'), (Z, 'count1'), (S, 'str')], False,
+      spec=sp_cmp(*sub1('str'), 'str', dom='pos1 <= g_len')),
     M('compare_pcSpc', 'compare( pos1, count1, str, pos2, count2)', 'i',
-      [(Z, 'pos1'), (Z, 'count1'), (SS, 'str'), (Z, 'pos2'), (Z, 'count2')], False),
-    M('compare_pcsn', 'compare( pos1, count1, str, count2)', 'i', [(Z, 'pos1'), (Z, 'count1'), (S, 'str'), (Z, 'count2')], False),
-    M('starts_with_S', 'starts_with( str)', 'B', [(SS, 'str')], False),
-    M('starts_with_s', 'starts_with( str)', 'B', [(S, 'str')], False),
-    M('starts_with_c', 'starts_with( ch)', 'B', [(C, 'ch')], False),
-    M('ends_with_S', 'ends_with( str)', 'B', [(SS, 'str')], False),
-    M('ends_with_s', 'ends_with( str)', 'B', [(S, 'str')], False),
-    M('ends_with_c', 'ends_with( ch)', 'B', [(C, 'ch')], False),
-    M('contains_S', 'contains( str)', 'B', [(SS, 'str')], False),
-    M('contains_s', 'contains( str)', 'B', [(S, 'str')], False),
-    M('contains_c', 'contains( ch)', 'B', [(C, 'ch')], False),
-    M('copy', 'copy( dest, count, pos)', 'z', [(D, 'dest'), (Z, 'count'), (Z, 'pos')], False, blen='count'),
-    M('swap', 'swap( other)', 'v', [(F, 'other')], True),
-    M('find_F', 'find( other, pos)', 'z', [(F, 'other'), (Z, 'pos')], False),
-    M('find_S', 'find( str, pos)', 'z', [(SS, 'str'), (Z, 'pos')], False),
-    M('find_spn', 'find( str, pos, count)', 'z', [(B, 'str'), (Z, 'pos'), (Z, 'count')], False, blen='count'),
-    M('find_sp', 'find( str, pos)', 'z', [(S, 'str'), (Z, 'pos')], False),
-    M('find_c', 'find( ch, pos)', 'z', [(C, 'ch'), (Z, 'pos')], False),
-    M('rfind_F', 'rfind( other, pos)', 'z', [(F, 'other'), (Z, 'pos')], False),
-    M('rfind_S', 'rfind( str, pos)', 'z', [(SS, 'str'), (Z, 'pos')], False),
-    M('rfind_spn', 'rfind( str, pos, count)', 'z', [(S, 'str'), (Z, 'pos'), (Z, 'count')], False),
-    M('rfind_sp', 'rfind( str, pos)', 'z', [(S, 'str'), (Z, 'pos')], False),
-    M('rfind_c', 'rfind( ch, pos)', 'z', [(C, 'ch'), (Z, 'pos')], False),
+      [(Z, 'pos1'), (Z, 'count1'), (SS, 'str'), (Z, 'pos2'), (Z, 'count2')], False,
+      spec=sp_cmp('pos1', MIN('count1', 'g_len - pos1'), 'pos2', MIN('count2', 'str_n - pos2'), 'str', dom='pos1 <= g_len && pos2 <= str_n')),
+    M('compare_pcsn', 'compare( pos1, count1, str, count2)', 'i', [(Z, 'pos1'), (Z, 'count1'), (S, 'str'), (Z, 'count2')], False,
+      spec=sp_cmp('pos1', MIN('count1', 'g_len - pos1'), '0', 'count2', 'str', dom='pos1 <= g_len && count2 <= str_n')),
+    M('starts_with_S', 'starts_with( str)', 'B', [(SS, 'str')], False, spec=sp_bool(e_starts)),
+    M('starts_with_s', 'starts_with( str)', 'B', [(S, 'str')], False, spec=sp_bool(e_starts)),
+    M('starts_with_c', 'starts_with( ch)', 'B', [(C, 'ch')], False, spec=sp_bool(lambda L, K: 'g_len > 0 && g0 == ch')),
+    M('ends_with_S', 'ends_with( str)', 'B', [(SS, 'str')], False, spec=sp_bool(e_ends)),
+    M('ends_with_s', 'ends_with( str)', 'B', [(S, 'str')], False, spec=sp_bool(e_ends)),
+    M('ends_with_c', 'ends_with( ch)', 'B', [(C, 'ch')], False, spec=sp_bool(lambda L, K: 'g_len > 0 && OLD(g_len - 1) == ch')),
+    M('contains_S', 'contains( str)', 'B', [(SS, 'str')], False, spec=sp_bool(e_contains)),
+    M('contains_s', 'contains( str)', 'B', [(S, 'str')], False, spec=sp_bool(e_contains)),
+    M('contains_c', 'contains( ch)', 'B', [(C, 'ch')], False, spec=sp_bool(e_contains_c)),
+    M('copy', 'copy( dest, count, pos)', 'z', [(D, 'dest'), (Z, 'count'), (Z, 'pos')], False,
+      blen='(pos <= g_len ? ' + MIN('count', 'g_len - pos') + ' : 0)',
+      spec=lambda L, K: dict(dom='pos <= g_len', result=['R == ' + MIN('count', 'g_len - pos')] +
+                             ['(%d >= R || dest[%d] == OLD(pos + %d))' % (j, j, j) for j in range(L)])),
+    M('swap', 'swap( other)', 'v', [(F, 'other')], True,
+      spec=lambda L, K: dict(dom='1', newlen='other_n', expect='SRC(other,k)',
+                             extra=['w_length(other) == g_len'] + ['(%d >= g_len || w_char_at(other,%d) == g%d)' % (j, j, j) for j in range(L)] + ['WF(other)'])),
+    M('find_F', 'find( other, pos)', 'z', [(F, 'other'), (Z, 'pos')], False, spec=sp_find('other_n', 'other', False, lambda L, K: L)),
+    M('find_S', 'find( str, pos)', 'z', [(SS, 'str'), (Z, 'pos')], False, spec=sp_find('str_n', 'str', False)),
+    M('find_spn', 'find( str, pos, count)', 'z', [(B, 'str'), (Z, 'pos'), (Z, 'count')], False, blen='count', spec=sp_find('count', 'str', False)),
+    M('find_sp', 'find( str, pos)', 'z', [(S, 'str'), (Z, 'pos')], False, spec=sp_find('str_n', 'str', False)),
+    M('find_c', 'find( ch, pos)', 'z', [(C, 'ch'), (Z, 'pos')], False, spec=sp_find_c(False)),
+    M('rfind_F', 'rfind( other, pos)', 'z', [(F, 'other'), (Z, 'pos')], False, spec=sp_find('other_n', 'other', True, lambda L, K: L)),
+    M('rfind_S', 'rfind( str, pos)', 'z', [(SS, 'str'), (Z, 'pos')], False, spec=sp_find('str_n', 'str', True)),
+    M('rfind_spn', 'rfind( str, pos, count)', 'z', [(S, 'str'), (Z, 'pos'), (Z, 'count')], False,
+      spec=lambda L, K: dict(sp_find('count', 'str', True)(L, K), dom='count <= str_n')),
+    M('rfind_sp', 'rfind( str, pos)', 'z', [(S, 'str'), (Z, 'pos')], False, spec=sp_find('str_n', 'str', True)),
+    M('rfind_c', 'rfind( ch, pos)', 'z', [(C, 'ch'), (Z, 'pos')], False, spec=sp_find_c(True)),
 ]
-for fam in ('find_first_of', 'find_first_not_of', 'find_last_of', 'find_last_not_of'):
+for fam, rev, neg in (('find_first_of', False, False), ('find_first_not_of', False, True),
+                      ('find_last_of', True, False), ('find_last_not_of', True, True)):
     OBS += [
-        M(fam + '_F', fam + '( other, pos)', 'z', [(F, 'other'), (Z, 'pos')], False),
-        M(fam + '_S', fam + '( str, pos)', 'z', [(SS, 'str'), (Z, 'pos')], False),
-        M(fam + '_spn', fam + '( str, pos, count)', 'z', [(B, 'str'), (Z, 'pos'), (Z, 'count')], False, blen='count'),
-        M(fam + '_sp', fam + '( str, pos)', 'z', [(S, 'str'), (Z, 'pos')], False),
-        M(fam + '_c', fam + '( ch, pos)', 'z', [(C, 'ch'), (Z, 'pos')], False),
+        M(fam + '_F', fam + '( other, pos)', 'z', [(F, 'other'), (Z, 'pos')], False, spec=sp_of('other_n', 'other', rev, neg, lambda L, K: L)),
+        M(fam + '_S', fam + '( str, pos)', 'z', [(SS, 'str'), (Z, 'pos')], False, spec=sp_of('str_n', 'str', rev, neg)),
+        M(fam + '_spn', fam + '( str, pos, count)', 'z', [(B, 'str'), (Z, 'pos'), (Z, 'count')], False, blen='count',
+          spec=sp_of('count', 'str', rev, neg)),
+        M(fam + '_sp', fam + '( str, pos)', 'z', [(S, 'str'), (Z, 'pos')], False, spec=sp_of('str_n', 'str', rev, neg)),
+        M(fam + '_c', fam + '( ch, pos)', 'z', [(C, 'ch'), (Z, 'pos')], False, spec=sp_of(None, None, rev, neg, char=True)),
     ]
 OBS += [
-    M('index', 'operator []( idx)', 'c', [(Z, 'idx')], False, dom10='idx <= g_len'),
-    M('front', 'front()', 'c', [], False),
-    M('back', 'back()', 'c', [], False),
+    M('index', 'operator []( idx)', 'c', [(Z, 'idx')], False, dom10='idx <= g_len',
+      spec=lambda L, K: dict(dom='idx <= g_len', result=['R == (idx < g_len ? OLD(idx) : 0)'])),
+    M('front', 'front()', 'c', [], False, spec=lambda L, K: dict(dom='g_len > 0', result=['R == g0'])),
+    M('back', 'back()', 'c', [], False, spec=lambda L, K: dict(dom='g_len > 0', result=['R == OLD(g_len - 1)'])),
+    M('at', 'at( idx)', 'cT', [(Z, 'idx')], False,
+      spec=lambda L, K: dict(dom='1', result=['(idx < g_len) ==> (*thrown == 0 && R == OLD(idx))', '(idx > g_len) ==> (*thrown != 0)'])),
+    M('substr', 'substr( pos, count)', 'str', [(Z, 'pos'), (Z, 'count')], False,
+      spec=lambda L, K: dict(dom='pos <= g_len', result=['R == ' + MIN('count', 'g_len - pos')] +
+                             ['(%d >= R || out[%d] == OLD(pos + %d))' % (j, j, j) for j in range(L)])),
+    M('str', 'str()', 'str', [], False,
+      spec=lambda L, K: dict(dom='1', result=['R == g_len'] + ['(%d >= R || out[%d] == g%d)' % (j, j, j) for j in range(L)])),
+    M('api', 'length()', 'z', [], False,
+      spec=lambda L, K: dict(dom='1', result=['R == g_len', 'w_api_length(self) == g_len', '(w_api_empty(self) != 0) == (g_len == 0)']
+                             + ['(%d > g_len || w_api_cstr_at(self,%d) == (%d < g_len ? g%d : 0))' % (j, j, j, min(j, L - 1)) for j in range(L + 1)])),
 ]
+eq = M('eq', '', 'B', [(F, 'other')], False,
+       spec=lambda L, K: dict(dom='1', result=['(R != 0) == (g_len == other_n' + ''.join(' && (%d >= g_len || g%d == other_%d)' % (j, j, j) for j in range(L)) + ')']))
+eq.raw = 'return celma::common::cv_op_eq< {L}>( *static_cast<const FS*>(self), other);'
+ne = M('ne', '', 'B', [(F, 'other')], False,
+       spec=lambda L, K: dict(dom='1', result=['(R != 0) == !(g_len == other_n' + ''.join(' && (%d >= g_len || g%d == other_%d)' % (j, j, j) for j in range(L)) + ')']))
+ne.raw = 'return celma::common::cv_op_ne< {L}>( *static_cast<const FS*>(self), other);'
+OBS += [eq, ne]
+# constructors FixedString(const char*) / (const std::string&): the front end aborts on their out-of-class
+# definition with mem-initialisers + default member initialisers (cpp_typecheck_function invariant) -> not under contract
 OBSERVERS[:] = OBS
